@@ -12,7 +12,9 @@
  *                    (rc 1, no call, when the key is absent)
  * stdout: one line per case; per op
  *   rc <rc> T <k:h:p | . ...> F <keys by next from min> B <keys by prev from max>
- * joined by " | ".  T is the pre-order dump with '.' for NULL (key:stored height:parent key,
+ * joined by " | ".  When the tree reaches more nodes than there are live objects (sharing, cycle), a traversal
+ * does not end (LOOP) or the driver's own search does not end, the case stops there with " | STOP"; every case
+ * also has a CPU-time watchdog of 2 s next to the 30 s wall-clock alarm.  T is the pre-order dump with '.' for NULL (key:stored height:parent key,
  * -1 for the root).
  *
  * avl_drv ptr: pointer-level output (compared with the extracted AvlPtrModel).  Every node object gets a
@@ -25,7 +27,7 @@
  * registered object (never dereferenced by the harness).  When the root or a field of a live object is such
  * a pointer the traversals are not run (F ? B ?); then, or when a traversal does not terminate (LOOP), the
  * structure is broken and the case ends there with " | STOP" (further operations on it could spin or write
- * anywhere).  ptr mode also arms a CPU-time watchdog of 5 s per case (SIGPROF kills the
+ * anywhere).  ptr mode also arms a CPU-time watchdog of 2 s per case (SIGPROF kills the
  * driver, the runner records the unanswered case as crashed) next to the 30 s wall-clock alarm.
  */
 #include <stdio.h>
@@ -40,7 +42,29 @@
 struct node {
 	struct iv_avl_node	an;
 	long			key;
+	struct node		*all_prev;	/* list of all live objects of the case: nothing below walks a */
+	struct node		*all_next;	/* possibly broken tree to count or free them */
 };
+
+static struct node all_head = { .all_prev = &all_head, .all_next = &all_head };
+static long live;			/* number of live node objects */
+static int broken;			/* a walk over the tree exceeded the number of live objects */
+
+static void all_add(struct node *n)
+{
+	n->all_prev = all_head.all_prev;
+	n->all_next = &all_head;
+	all_head.all_prev->all_next = n;
+	all_head.all_prev = n;
+	live++;
+}
+
+static void all_del(struct node *n)
+{
+	n->all_prev->all_next = n->all_next;
+	n->all_next->all_prev = n->all_prev;
+	live--;
+}
 
 static int cmp(const struct iv_avl_node *_a, const struct iv_avl_node *_b)
 {
@@ -164,6 +188,7 @@ static struct iv_avl_node *build(struct iv_avl_node *parent)
 	}
 	n = malloc(sizeof(*n));
 	reg_add(n);
+	all_add(n);
 	n->key = atol(tok);
 	n->an.parent = parent;
 	tok = strtok_r(NULL, " ", &save);
@@ -177,12 +202,22 @@ static struct iv_avl_node *build(struct iv_avl_node *parent)
 	return &n->an;
 }
 
+static long dump_budget;
+
 static void dump(struct iv_avl_node *an, FILE *f)
 {
 	struct node *n;
 
+	if (broken)
+		return;
 	if (an == NULL) {
 		fprintf(f, " .");
+		return;
+	}
+	if (dump_budget-- <= 0) {
+		/* more nodes reachable than live objects: sharing or a cycle */
+		fprintf(f, " LOOP");
+		broken = 1;
 		return;
 	}
 	n = iv_container_of(an, struct node, an);
@@ -192,26 +227,17 @@ static void dump(struct iv_avl_node *an, FILE *f)
 	dump(an->right, f);
 }
 
-static long count(struct iv_avl_node *an)
-{
-	return an ? 1 + count(an->left) + count(an->right) : 0;
-}
-
-static void free_all(struct iv_avl_node *an)
-{
-	if (an == NULL)
-		return;
-	free_all(an->left);
-	free_all(an->right);
-	free(iv_container_of(an, struct node, an));
-}
-
 static struct node *lookup(long key)
 {
 	struct iv_avl_node *an = tree.root;
+	long steps = 0;
 
 	while (an != NULL) {
 		struct node *n = iv_container_of(an, struct node, an);
+		if (++steps > live + 2) {
+			broken = 1;
+			return NULL;
+		}
 		if (key < n->key)
 			an = an->left;
 		else if (key > n->key)
@@ -225,17 +251,21 @@ static struct node *lookup(long key)
 static void report(int rc)
 {
 	struct iv_avl_node *an;
-	long limit = count(tree.root) + 2;
+	long limit = live + 2;
 	long i;
 
 	printf("rc %d T", rc);
+	dump_budget = live;
 	dump(tree.root, stdout);
+	if (broken)
+		return;
 	printf(" F");
 	i = 0;
 	iv_avl_tree_for_each (an, &tree) {
 		printf(" %ld", iv_container_of(an, struct node, an)->key);
 		if (++i > limit) {
 			printf(" LOOP");
+			broken = 1;
 			break;
 		}
 	}
@@ -245,6 +275,7 @@ static void report(int rc)
 		printf(" %ld", iv_container_of(an, struct node, an)->key);
 		if (++i > limit) {
 			printf(" LOOP");
+			broken = 1;
 			break;
 		}
 	}
@@ -334,8 +365,9 @@ int main(int argc, char **argv)
 		/* watchdog per case: a run-away loop in the library must not stall the whole check (the runner
 		   records the unanswered case as crashed and resumes after it) */
 		alarm(30);
-		if (ptr_mode) {
-			struct itimerval it = { { 0, 0 }, { 5, 0 } };
+		{
+			/* and 2 s of CPU time per case (SIGPROF kills the driver) */
+			struct itimerval it = { { 0, 0 }, { 2, 0 } };
 			setitimer(ITIMER_PROF, &it, NULL);
 		}
 
@@ -353,14 +385,19 @@ int main(int argc, char **argv)
 
 		for (o = strtok_r(ops, " ", &osave); o != NULL; o = strtok_r(NULL, " ", &osave)) {
 			long key = atol(o + 1);
+			struct node *ln = (o[0] == 'I' || o[0] == 'd') ? lookup(key) : NULL;
 			int rc;
 
-			if (o[0] == 'I' && lookup(key) != NULL) {
+			if (broken) {
+				/* the driver's own search walked more nodes than there are live objects */
+				printf("%sSTOP", first ? "" : " | ");
+				break;
+			}
+			if (o[0] == 'I' && ln != NULL) {
 				/* double registration: the LIVE node object that holds the key (leaf, interior node
 				 * or root) is handed to insert again; insert must return -1 and store nothing.
 				 * Nothing is allocated and nothing is freed, whatever insert returns. */
-				struct node *n = lookup(key);
-				rc = iv_avl_tree_insert(&tree, &n->an);
+				rc = iv_avl_tree_insert(&tree, &ln->an);
 			} else if (o[0] == 'i' || o[0] == 'I') {
 				/* a node object handed to insert holds arbitrary old contents: vary the garbage
 				 * (0x01 looks like a stale height-1 leaf, as after delete + re-insert of the same object) */
@@ -369,18 +406,21 @@ int main(int argc, char **argv)
 				reg_add(n);
 				memset(n, garbage[(unsigned long)key % 4], sizeof(*n));
 				n->key = key;
+				all_add(n);
 				rc = iv_avl_tree_insert(&tree, &n->an);
 				if (rc < 0) {
 					reg_del(n);
+					all_del(n);
 					free(n);
 				}
 			} else {
-				struct node *n = lookup(key);
+				struct node *n = ln;
 				if (n == NULL) {
 					rc = 1;
 				} else {
 					iv_avl_tree_delete(&tree, &n->an);
 					reg_del(n);
+					all_del(n);
 					memset(n, 0xaa, sizeof(*n));
 					free(n);
 					rc = 0;
@@ -396,21 +436,25 @@ int main(int argc, char **argv)
 				}
 			} else {
 				report(rc);
+				if (broken) {
+					/* sharing / cycle / endless traversal: further operations could spin or write anywhere */
+					printf(" | STOP");
+					break;
+				}
 			}
 		}
 		printf("\n");
 		fflush(stdout);
-		if (ptr_mode) {
-			/* free every live object of the registry (also the ones a broken tree no longer reaches) */
-			while (reg_n > 0) {
-				struct node *n = by_serial[reg[reg_n - 1].serial];
+		/* free every live object (also the ones a broken tree no longer reaches, and each only once) */
+		while (reg_n > 0)
+			reg_del(by_serial[reg[reg_n - 1].serial]);
+		while (all_head.all_next != &all_head) {
+			struct node *n = all_head.all_next;
 
-				reg_del(n);
-				free(n);
-			}
-		} else {
-			free_all(tree.root);
+			all_del(n);
+			free(n);
 		}
+		broken = 0;
 	}
 	free(line);
 	free(by_serial);
